@@ -69,6 +69,9 @@ func main() {
 	dump := flag.String("dump", "", "print the scenario of seed:index and exit")
 	eventlog := flag.Bool("eventlog", false, "print a hash of every run's outcome (determinism self-test)")
 	cpuprof := flag.String("cpuprofile", "", "write a CPU profile")
+	child := flag.String("child", "", "internal: run as child k/n")
+	childOut := flag.String("child-out", "", "internal: where the child writes its result")
+	stopFile := flag.String("stop-file", "", "internal: stop marker shared by the children")
 	tasksOnly := flag.Bool("tasks-only", false, "C04: multi-task worlds only (isolation passes)")
 	embed := flag.String("embed", "", "comma separated evidence files of sub-passes to embed under coverage.sub_passes")
 	flag.Parse()
@@ -148,6 +151,7 @@ func main() {
 	for i := 0; i < b.seeds; i++ {
 		seeds = append(seeds, seed+uint64(i)*1000003)
 	}
+	knownFile = *knownPath
 	known, err := sim.LoadKnown(*knownPath)
 	if err != nil && !os.IsNotExist(err) {
 		fatal("known findings: %v", err)
@@ -159,15 +163,43 @@ func main() {
 		return
 	}
 
-	if sim.TaskMode == sim.ModeYield {
-		// the yield hook is one package-level variable of the instrumented copy:
-		// one world at a time per process (the script runs several processes)
-		*workers = 1
+	rc := sim.RunCfg{Prop: *prop, Tier: *tier, Seeds: seeds, RunsPer: b.runs, MaxSeconds: b.secs, Known: known}
+	if *child != "" {
+		// child process: run my share of the indices, report to the parent, exit
+		var k, n int
+		fmt.Sscanf(*child, "%d/%d", &k, &n)
+		rc.Offset, rc.Stride, rc.StopFile = k, n, *stopFile
+		r := sim.Run(rc)
+		cr := sim.ChildResult{Stats: r.Stats.Wire(), Found: r.Found, KnownHits: r.KnownHits, KnownEx: r.KnownEx, Wall: r.Wall, TimedOut: r.TimedOut, Stalled: r.Stalled}
+		out, _ := json.Marshal(&cr)
+		if err := ioutil.WriteFile(*childOut, out, 0644); err != nil {
+			fatal("child: %v", err)
+		}
+		return
 	}
-	res := sim.Run(sim.RunCfg{Prop: *prop, Tier: *tier, Seeds: seeds, RunsPer: b.runs, MaxSeconds: b.secs, Workers: *workers, Known: known})
+	res := runChildren(rc, pick(*workers, runtime.NumCPU()), *mode, *tasksOnly)
 
 	if res.Stalled != "" {
-		fmt.Printf("WATCHDOG: a run made no progress for 120 s: %s (prop %s). Re-run it alone: simcheck -prop %s -dump <seed>:<index>\n", res.Stalled, *prop, *prop)
+		// a world did not finish: re-run it alone in a fresh process with a limit before blaming the library
+		var sd, ix uint64
+		fmt.Sscanf(res.Stalled, "%d:%d", &sd, &ix)
+		sc := sim.Build(*prop, sd, ix, *tier)
+		os.MkdirAll(*outDir, 0755)
+		rp := filepath.Join(*outDir, fmt.Sprintf("replay-%s-C04-hang-%d-%d.json", *prop, sd, ix))
+		if abs, err := filepath.Abs(rp); err == nil {
+			rp = abs
+		}
+		sim.WriteReplay(rp, &sim.Replay{Property: "C04", Monitor: "non-termination", Key: "C04/non-termination", Seed: sd, Index: ix, Scenario: sc,
+			Detail: "the world did not finish within the step budget (a library call does not return)"})
+		self, _ := os.Executable()
+		out, _ := exec.Command(self, "-replay", rp, "-mode", *mode).CombinedOutput()
+		if strings.Contains(string(out), "REPRODUCED key=C04/non-termination") {
+			fmt.Printf("violation found: seed=%d index=%d property=C04 monitor=non-termination: a library call does not return\n", sd, ix)
+			fmt.Printf("VIOLATION property=C04 replay=%s\n", rp)
+			writeEvidence(*prop, *tier, seed, seeds, res, *evPath, *noEvidence, *mode, 1, "C04")
+			os.Exit(1)
+		}
+		fmt.Printf("WATCHDOG: world %s made no progress for %d s but finishes when run alone: infrastructure trouble\n%s\n", res.Stalled, sim.StallSeconds, out)
 		os.Exit(2)
 	}
 	for _, id := range sortedKeys(res.KnownHits) {
@@ -219,6 +251,99 @@ func main() {
 }
 
 var embedFiles string
+
+// runChildren spreads the runs over child processes (one world at a time per
+// process) and merges what they report.
+func runChildren(rc sim.RunCfg, n int, mode string, tasksOnly bool) *sim.RunResult {
+	self, err := os.Executable()
+	if err != nil {
+		fatal("%v", err)
+	}
+	dir, err := ioutil.TempDir("", "simcheck-children")
+	if err != nil {
+		fatal("%v", err)
+	}
+	defer os.RemoveAll(dir)
+	t0 := time.Now()
+	stop := filepath.Join(dir, "stop")
+	type ch struct {
+		cmd *exec.Cmd
+		out string
+		buf *strings.Builder
+	}
+	var chs []ch
+	for k := 0; k < n; k++ {
+		out := filepath.Join(dir, fmt.Sprintf("child-%d.json", k))
+		args := []string{"-prop", rc.Prop, "-tier", rc.Tier, "-runs", strconv.Itoa(rc.RunsPer), "-seeds", strconv.Itoa(len(rc.Seeds)),
+			"-secs", fmt.Sprint(rc.MaxSeconds), "-mode", mode, "-child", fmt.Sprintf("%d/%d", k, n), "-child-out", out, "-stop-file", stop, "-known", knownFile}
+		if tasksOnly {
+			args = append(args, "-tasks-only")
+		}
+		c := exec.Command(self, args...)
+		c.Env = append(os.Environ(), fmt.Sprintf("VERIF_SEED=%d", rc.Seeds[0]))
+		sb := &strings.Builder{}
+		c.Stdout, c.Stderr = sb, sb
+		if err := c.Start(); err != nil {
+			fatal("start child: %v", err)
+		}
+		chs = append(chs, ch{c, out, sb})
+	}
+	res := &sim.RunResult{Stats: sim.NewStats(), KnownHits: map[string]int64{}, KnownEx: map[string]string{}}
+	var founds []*sim.Found
+	for k, c := range chs {
+		err := c.cmd.Wait()
+		b, rerr := ioutil.ReadFile(c.out)
+		if err != nil || rerr != nil {
+			fmt.Printf("INFRASTRUCTURE: child %d failed (%v / %v):\n%s\n", k, err, rerr, tailStr(c.buf.String(), 3000))
+			os.Exit(2)
+		}
+		var cr sim.ChildResult
+		if err := json.Unmarshal(b, &cr); err != nil {
+			fatal("child %d result: %v", k, err)
+		}
+		res.Stats.Merge(cr.Stats.Stats())
+		for id, v := range cr.KnownHits {
+			res.KnownHits[id] += v
+			if _, ok := res.KnownEx[id]; !ok {
+				res.KnownEx[id] = cr.KnownEx[id]
+			}
+		}
+		if cr.Found != nil {
+			founds = append(founds, cr.Found)
+		}
+		if cr.TimedOut {
+			res.TimedOut = true
+		}
+		if cr.Stalled != "" && res.Stalled == "" {
+			res.Stalled = cr.Stalled
+		}
+	}
+	if len(founds) > 0 {
+		pos := map[uint64]int{}
+		for i, s := range rc.Seeds {
+			pos[s] = i
+		}
+		sort.Slice(founds, func(i, j int) bool {
+			if pos[founds[i].Seed] != pos[founds[j].Seed] {
+				return pos[founds[i].Seed] < pos[founds[j].Seed]
+			}
+			return founds[i].Index < founds[j].Index
+		})
+		res.Found = founds[0]
+	}
+	res.Runs = res.Stats.Runs
+	res.Wall = time.Since(t0).Seconds()
+	return res
+}
+
+func tailStr(s string, n int) string {
+	if len(s) > n {
+		return s[len(s)-n:]
+	}
+	return s
+}
+
+var knownFile string
 
 func pick(a, b int) int {
 	if a > 0 {
@@ -285,7 +410,19 @@ func doReplay(path string) int {
 		fatal("read replay: %v", err)
 	}
 	mon := sim.MonitorsFor(rp.Scenario.Prop)
-	v := sim.Exec(rp.Scenario, mon, nil)
+	var v *sim.Violation
+	fin := make(chan struct{})
+	go func() { v = sim.Exec(rp.Scenario, mon, nil); close(fin) }()
+	select {
+	case <-fin:
+	case <-time.After(time.Duration(sim.StallSeconds) * time.Second):
+		fmt.Printf("replay %s: the world does not finish within %d s\n", path, sim.StallSeconds)
+		if rp.Key == "C04/non-termination" {
+			fmt.Printf("REPRODUCED key=C04/non-termination\n")
+		}
+		fmt.Printf("VIOLATION property=C04 replay=%s\n", path)
+		return 1
+	}
 	if v == nil {
 		fmt.Printf("replay %s: no violation (expected %s)\n", path, rp.Key)
 		return 0
